@@ -22,8 +22,16 @@ import time
 import traceback
 
 VERIF = os.path.dirname(os.path.dirname(os.path.abspath(__file__)))
-LEAN = os.path.join(VERIF, "lean")
 REPO = os.environ.get("EAR_REPO", "/repo")
+if os.environ.get("EAR_REPO"):
+    # mutation trials against a scratch checkout: private copy of the Lean project (regenerated tables must
+    # not leak into /verif/lean), private evidence/replay directory
+    LEAN = os.path.join(REPO, ".verif_lean")
+    OUT = os.path.join(REPO, ".verif_out")
+    subprocess.run(["rsync", "-a", "--delete", os.path.join(VERIF, "lean") + "/", LEAN + "/"], check=True)
+else:
+    LEAN = os.path.join(VERIF, "lean")
+    OUT = VERIF
 GEN = os.path.join(LEAN, "Earverif", "Gen")
 ALLOWED_AXIOMS = {"propext", "Classical.choice", "Quot.sound"}
 FORBIDDEN = re.compile(
@@ -276,8 +284,8 @@ def finish(ctx, spec):
     code = 0
     replay = None
     if unlisted or broken:
-        os.makedirs(os.path.join(VERIF, "replays"), exist_ok=True)
-        replay = os.path.join(VERIF, "replays", "%s-%s-%d.json" % (ctx.pid, ctx.tier, ctx.seed))
+        os.makedirs(os.path.join(OUT, "replays"), exist_ok=True)
+        replay = os.path.join(OUT, "replays", "%s-%s-%d.json" % (ctx.pid, ctx.tier, ctx.seed))
         with open(replay, "w") as f:
             json.dump(
                 {
@@ -287,7 +295,7 @@ def finish(ctx, spec):
                     "failing_inputs": unlisted[:20],
                     "broken": broken[:50],
                     "theorems_or_correspondence_not_checking": [b.split(":")[0] for b in broken][:50],
-                    "replay_cmd": "./check %s --replay %s" % (ctx.pid, os.path.relpath(replay, VERIF)),
+                    "replay_cmd": "./check %s --replay %s" % (ctx.pid, os.path.relpath(replay, OUT)),
                 },
                 f,
                 indent=1,
@@ -323,13 +331,13 @@ def finish(ctx, spec):
         "wall_s": round(time.time() - ctx.t0, 2),
         "violations": len(unlisted) + (1 if broken and not unlisted else 0),
     }
-    os.makedirs(os.path.join(VERIF, "evidence"), exist_ok=True)
-    with open(os.path.join(VERIF, "evidence", "%s.json" % ctx.pid), "w") as f:
+    os.makedirs(os.path.join(OUT, "evidence"), exist_ok=True)
+    with open(os.path.join(OUT, "evidence", "%s.json" % ctx.pid), "w") as f:
         json.dump(ev, f, indent=1, default=str)
     for cl, (k, hs) in listed.items():
         log("KNOWN-FINDING: property=%s %s (%d reproductions this run; classifier %s)" % (ctx.pid, k["what"], len(hs), cl))
     if code:
-        rel = os.path.relpath(replay, VERIF)
+        rel = os.path.relpath(replay, OUT)
         if unlisted:
             log("failing input: %s" % json.dumps(unlisted[0], default=str)[:1500])
             log("VIOLATION property=%s replay=%s" % (ctx.pid, rel))
